@@ -1045,6 +1045,7 @@ func c03Gen(tier string, seed uint64, out *bufio.Writer) {
 			fmt.Fprintf(out, "h %s %s %s\n", reads, sch.wire(), c03GenHistory(r, nTx, sch, true, pool))
 		}
 	}
+	c03GenKeySize(out)
 	if tier != "thorough" {
 		c03GenPairs(out, 3)
 	} else {
@@ -1052,6 +1053,41 @@ func c03Gen(tier string, seed uint64, out *bufio.Writer) {
 		c03GenExhaustive(out)
 		c03GenExhaustiveLayered(out)
 	}
+}
+
+// c03GenKeySize: indexed values at bbolt's key-size boundary (MaxKeySize = 32768): 32767, 32768 and
+// 32769 bytes as name / alias (create, update, child create, a second entity asking for the same
+// value afterwards), and the longest set value the entity bucket itself accepts (32767: its typed
+// key is 32768 bytes) as a role
+func c03GenKeySize(out *bufio.Writer) {
+	op := func(o c03Op) string { return c03FmtOp(o) }
+	sch := c03Schemas[3]
+	sch.basePath, sch.order = []string{"u", "v", "w"}, "ran"
+	for i, n := range []int{32767, 32768, 32769} {
+		v := strings.Repeat("k", n)
+		w := "m" + strings.Repeat("k", n-1)
+		head := "h " + csList([]string{"", "x", "y", v, w})
+		if i%2 == 1 {
+			head += " " + sch.wire()
+		}
+		r := []string{"r"}
+		fmt.Fprintf(out, "%s %s|%s|%s|%s\n", head, op(c03Op{kind: 'c', id: "a", name: v, roles: r}),
+			op(c03Op{kind: 'c', id: "b", name: v, roles: r}), op(c03Op{kind: 'u', id: "a", name: "x", chk: "n"}),
+			op(c03Op{kind: 'c', id: "b", name: v}))
+		fmt.Fprintf(out, "%s %s|%s|%s|%s|%s\n", head, op(c03Op{kind: 'c', id: "a", name: "x", roles: r}),
+			op(c03Op{kind: 'u', id: "a", name: v, chk: "n"}), op(c03Op{kind: 'c', id: "b", name: v}),
+			op(c03Op{kind: 'c', id: "c", name: "x"}), op(c03Op{kind: 'u', id: "a", name: w, chk: "*"}))
+		fmt.Fprintf(out, "%s %s|%s|%s|%s\n", head, op(c03Op{kind: 'c', id: "a", name: "x", alias: &v, roles: r}),
+			op(c03Op{kind: 'u', id: "a", name: "x", alias: &w, chk: "a"}), op(c03Op{kind: 'c', id: "b", name: "y", alias: &v}),
+			"d:"+toWire("a"))
+		fmt.Fprintf(out, "%s %s|%s|%s|%s\n", head, op(c03Op{kind: 'c', id: "a", name: "x"}),
+			op(c03Op{kind: 'C', id: "a", name: v, alias: &w, roles: r, tag: "t"}), op(c03Op{kind: 'C', id: "b", name: v, tag: "t"}),
+			op(c03Op{kind: 'U', id: "a", name: w, alias: &v, tag: "u", chk: "nat"}))
+	}
+	big := strings.Repeat("k", 32767)
+	head := "h " + csList([]string{"", "x", "r", big})
+	fmt.Fprintf(out, "%s %s|%s|%s|%s\n", head, op(c03Op{kind: 'c', id: "a", name: "x", roles: []string{big, "r"}}),
+		op(c03Op{kind: 'c', id: "b", name: "y", roles: []string{big}}), op(c03Op{kind: 'u', id: "a", name: "x", chk: "r"}), "d:"+toWire("b"))
 }
 
 func c03Enumerate(out *bufio.Writer, head string, alphabet []string, depth int) {
